@@ -110,7 +110,10 @@ func c05(e *Env) {
 	if !f.bootOK() || !f.connectClients() {
 		return
 	}
-	f.sharePrepared = true
+	// in half of the runs a prepared statement is known only to the node that prepared it: the
+	// others answer UNPREPARED once and are repaired by the proxy (C08), in the middle of whatever
+	// the retry policy is doing
+	f.sharePrepared = c.Choose("statements-known-everywhere", 2) == 0
 	w := f.w
 	w.OnReply = f.onReply
 	w.OnAttempt = f.onAttempt
@@ -178,13 +181,18 @@ func c05(e *Env) {
 			break
 		}
 		checked++
+		for _, pp := range f.preps { // (the proxy's own re-PREPAREs of a statement are not scripted)
+			if pp.usable {
+				delete(w.Script, pp.token)
+			}
+		}
 		for _, n := range hosts {
 			if !down[n] {
 				continue
 			}
 			n.Restart()
 			for _, pp := range f.preps { // the restarted node learns the statements again (C08 owns re-preparation)
-				if pp.usable {
+				if pp.usable && f.sharePrepared {
 					n.Prepared[fmt.Sprintf("%x", pp.id)] = pp.stmt.Text
 				}
 			}
@@ -284,6 +292,22 @@ func c05Model(w *world.World, ri *reqInfo, hosts []*world.Node, down map[*world.
 	isNoHosts := func() bool {
 		em, ok := reply.(message.Error)
 		return ok && strings.Contains(em.GetErrorMessage(), "exhausted query plan")
+	}
+	// A host that does not know a prepared statement answers UNPREPARED; the proxy prepares it there
+	// and executes again on that host. Such a round is no attempt in the sense of the policy: it
+	// consumes no outcome of the script and no retry.
+	{
+		var eff []*world.Attempt
+		for i, a := range atts {
+			if a.Outcome == "unprepared(auto)" {
+				if i+1 >= len(atts) || atts[i+1].Node != a.Node {
+					return fmt.Sprintf("unprepared-not-repaired: %s answered UNPREPARED (attempt #%d) and the request was not executed there again after re-preparation", a.Node.Name, i+1)
+				}
+				continue
+			}
+			eff = append(eff, a)
+		}
+		atts = eff
 	}
 	if len(atts) == 0 {
 		if nUp == 0 {
